@@ -52,9 +52,6 @@ def check_case(ctx, case):
                 ctx.violation('delete-model', 'np.delete differs from the model at %d' % i, case)
         if len(values) <= 14:
             ctx.lean.ask(['c17', 'delete', str(i), frs(values)], cbd)
-        if any(np.all(row == coords[i]) for row in c):
-            ctx.reject('duplicate-coordinate')
-            return
         with quiet():
             ok = OrdinaryKriging(descr, coordinates=c, values=v)
             z = float(ok.transform([coords[i][0]], [coords[i][1]])[0])
@@ -107,6 +104,11 @@ def gen(ctx):
         k = int(rng.integers(1, 4))
         far = coords.max(axis=0) + rng.uniform(300, 900, size=(k, 2)) * np.array([[1, 1], [1, -1], [-1, 1]])[:k]
         coords = np.vstack([coords, far])
+        rng.shuffle(coords, axis=0)
+    if rng.random() < 0.3:
+        # co-located observations: holding one out leaves its twin among the remaining data
+        k = int(rng.integers(1, 4))
+        coords = np.vstack([coords, coords[rng.integers(0, len(coords), size=k)]])
         rng.shuffle(coords, axis=0)
     values = gen_values(rng, coords, 'field')
     model = str(rng.choice(['spherical', 'exponential', 'cubic', 'stable', 'matern']))
